@@ -705,7 +705,8 @@ class History(object):
         rng = self.rng
         state = self.replies[-1]["state"]
         reqs = []
-        if rng.random() < 0.5:
+        how = rng.random()
+        if how < 0.45:
             keys = list(state["tasks"].keys())
             rng.shuffle(keys)
             for k in keys[:rng.randint(1, 2)]:
@@ -713,6 +714,12 @@ class History(object):
                 if tid in CMDS:
                     continue
                 reqs.append({"task": tid, "route": int(route), "reset_items": rng.random() < 0.3})
+        elif how < 0.7:
+            # every execution that did not end well (failed, timed out, abandoned, canceled), by name
+            for k, idx in sorted(state["tasks"].items()):
+                tid, route = k.rsplit("__r", 1)
+                if tid not in CMDS and state["sequence"][idx]["status"] in ("failed", "timeout", "abandoned", "canceled"):
+                    reqs.append({"task": tid, "route": int(route), "reset_items": rng.random() < 0.3})
         self.outcome = {}
         self.acc = {}
         r = self.play({"op": "rerun", "reqs": reqs})
